@@ -27,7 +27,9 @@ ArrayEntries == {"elliptic_block", "sl2_iso", "point_klein", "point_projective",
                  \* second part always carries non-integral floating-point data
                  "point_from_parts", "transformation_from_parts", "polygon_from_parts",
                  \* array-valued angles: the point at [i][j] is the ideal point of angle theta[i][j]
-                 "ideal_from_angle_grid", "ideal_from_angle_vector"}
+                 "ideal_from_angle_grid", "ideal_from_angle_vector",
+                 \* a point given by its coordinates in each of the other models (unit and array of points)
+                 "point_poincare", "point_halfspace", "point_hyperboloid", "points_halfspace", "points_poincare"}
 IntEntries == {"coxeter_matrix", "triangle_group", "coxeter_diagram"}          \* Coxeter labels
 
 ScalarPacks == {"py_float", "py_int", "np_float64", "np_float32", "np_int64", "zero_d_float", "zero_d_int"}
@@ -53,7 +55,8 @@ InDomain(e, p, v) ==
 ResultKind(e, p, v) == "numeric"
 Canonical(e) == IF e \in ScalarEntries THEN "py_float" ELSE IF e \in ArrayEntries THEN "ndarray_float64" ELSE "py_int"
 \* routines of the library that must succeed on the result
-Followups(e) == IF e \in {"number_like", "ideal_from_angle", "point_klein", "point_projective", "regular_polygon_radius_fn",
+Followups(e) == IF e \in {"number_like", "ideal_from_angle", "point_klein", "point_projective", "point_poincare",
+                          "point_halfspace", "point_hyperboloid", "points_halfspace", "points_poincare", "regular_polygon_radius_fn",
                           "polygon_interior_angle_fn", "tangent_vector", "segment", "polygon", "regular_polygon_angle",
                           "regular_polygon_radius"}
                 THEN {"cos"} ELSE {"cos", "invert", "eig"}
